@@ -10,6 +10,16 @@ def main():
     ap.add_argument("--replay", default=None)
     a = ap.parse_args()
     seed = int(os.environ.get("VERIF_SEED", "0") or 0)
+    if a.replay:
+        # a replay file names the seed and the tier of the run that produced it: the same run is repeated (all random
+        # choices derive from the seed, so the failing input recorded in the file is met again)
+        import json
+        try:
+            r = json.load(open(a.replay))
+            seed, a.tier = int(r.get("seed", seed)), r.get("tier", a.tier)
+        except Exception as e:
+            print("INFRASTRUCTURE-ERROR %s: cannot read replay file %s: %r" % (a.pid, a.replay, e))
+            sys.exit(2)
     try:
         mod = importlib.import_module(a.pid.lower())
         ck = Check(a.pid, a.tier, seed, a.replay)
